@@ -289,6 +289,7 @@ PROPS["C17"] = dict(
 
 PROPS["C14"] = dict(
     module="RaptorModel.Props.C14",
+    extra_theorem_modules=["RaptorModel.Props.C14Par"],
     harnesses=["h_c14"],
     configs=seqpar_configs("h_c14", [1, 2, 3, 4, 7], list(range(1, 17))),
     rule=("random square matrices with a stored diagonal: M-matrix-like, mixed-sign diagonals, off-diagonals all of the diagonal's sign, arbitrary signs; "
@@ -325,7 +326,7 @@ PROPS["C13"] = dict(
 
 PROPS["C12"] = dict(
     module="RaptorModel.Props.C12",
-    extra_theorem_modules=["RaptorModel.Props.C12Ext"],
+    extra_theorem_modules=["RaptorModel.Props.C12Ext", "RaptorModel.Props.C12Par"],
     harnesses=["h_rs"],
     configs=rs_configs("C12", [1, 2, 3, 4, 6], [1, 2, 3, 4, 5, 6, 8, 12, 16]),
     rule=("M-matrix-like systems (positive diagonal, non-positive dyadic off-diagonals, symmetric and non-symmetric patterns, rows with zero row sum, "
